@@ -209,6 +209,14 @@ static void op_mig(actor *a, int ui, int how, int target)
             stat_add("mig_rejected_other", 1);
             return;
         }
+        /* documented: ABT_ERR_MIGRATION_TARGET if the unit is associated with any pool
+         * of the target (main) scheduler */
+        if (!pending && !ALOAD(g_bulk_moves))
+            for (int q = 0; q < G.xs[target].npools; q++)
+                if (G.xs[target].pools[q] == cur)
+                    viol("migrate_to_%s(stream %d) was accepted although the unit is associated "
+                         "with pool %d, which belongs to that scheduler", how == 1 ? "sched" : "xstream",
+                         target, cur);
         m->npool[k] = -2 - target; /* some pool of stream `target` */
     }
     ASTORE(m->t_ret[k], now_tick());
